@@ -137,6 +137,7 @@ func (vc *VC) runAnchors(f *Frame, st *State, in ssa.Instruction, after bool) {
 	}
 	for _, as := range vc.c.Asserts {
 		if as.Anchor.Callee == name && as.Anchor.Ordinal == ord && as.After == after {
+			vc.anchorHit(as.Anchor.Callee, as.Anchor.Ordinal, as.After)
 			sc := vc.entryScope()
 			sc.st, sc.frame = st, f
 			t, ok := vc.trClause(sc, as.C)
@@ -148,6 +149,7 @@ func (vc *VC) runAnchors(f *Frame, st *State, in ssa.Instruction, after bool) {
 	}
 	for _, g := range vc.c.Ghosts {
 		if g.Anchor.Callee == name && g.Anchor.Ordinal == ord && g.After == after {
+			vc.anchorHit(g.Anchor.Callee, g.Anchor.Ordinal, g.After)
 			vc.execGhost(f, st, g)
 		}
 	}
@@ -891,4 +893,48 @@ func (f *Frame) callModel(st *State, in ssa.Instruction, ca *CallAs, c *ssa.Call
 	sig := types.NewSignatureType(nil, nil, nil, types.NewTuple(params...), types.NewTuple(results...), false)
 	vc.trustedUsed["model "+ca.Model+" at "+vc.funcName()+" "+ca.Src] = true
 	return f.applyContract(st, in, m, sig, nil, args, "model "+ca.Model, nil)
+}
+
+func anchorKey(callee string, ord int, after bool) string {
+	return fmt.Sprintf("%s#%d/%v", callee, ord, after)
+}
+
+func (vc *VC) anchorHit(callee string, ord int, after bool) {
+	if vc.anchorsHit == nil {
+		vc.anchorsHit = map[string]bool{}
+	}
+	vc.anchorsHit[anchorKey(callee, ord, after)] = true
+}
+
+// checkAnchors turns every ghost statement / assertion whose call anchor does not occur in the code
+// into a failed obligation: the assertion was established on the tree the contract was written for and
+// can no longer be generated, so the property it carries is not established any more.
+func (vc *VC) checkAnchors() {
+	if vc.c == nil {
+		return
+	}
+	when := func(after bool) string {
+		if after {
+			return "after"
+		}
+		return "before"
+	}
+	seen := map[string]bool{}
+	for _, as := range vc.c.Asserts {
+		k := anchorKey(as.Anchor.Callee, as.Anchor.Ordinal, as.After)
+		if as.Anchor.Callee == "exit" || vc.anchorsHit[k] {
+			continue
+		}
+		vc.oblige(vc.entry, "assert", fmt.Sprintf("call:%s#%d:missing:%s", as.Anchor.Callee, as.Anchor.Ordinal, as.C.Name), False, clauseProps(vc.c, as.C),
+			fmt.Sprintf("assertion %s call %s#%d cannot be established: the call it is anchored to no longer occurs in the function: %s", when(as.After), as.Anchor.Callee, as.Anchor.Ordinal, as.C.Src), vc.fn.Pos())
+	}
+	for _, g := range vc.c.Ghosts {
+		k := anchorKey(g.Anchor.Callee, g.Anchor.Ordinal, g.After)
+		if g.Anchor.Callee == "exit" || vc.anchorsHit[k] || seen[k] {
+			continue
+		}
+		seen[k] = true
+		vc.oblige(vc.entry, "assert", fmt.Sprintf("call:%s#%d:missing:ghost", g.Anchor.Callee, g.Anchor.Ordinal), False, vc.c.Props,
+			fmt.Sprintf("ghost update %s call %s#%d cannot be placed: the call it is anchored to no longer occurs in the function", when(g.After), g.Anchor.Callee, g.Anchor.Ordinal), vc.fn.Pos())
+	}
 }
